@@ -237,3 +237,39 @@ def stream_cfg(tier):
     n = 150 if tier == "quick" else 6000
     return (core.Stream("config-validate", "broker", gen_cfg, pred_cfg, lambda ops, out: out and out[0] == "ok", canon=wire.canon,
                         keep_prefix=1, hint=wire.shared_hints), n)
+
+
+# ------------------------------------------------------------------ a client with one publish in flight, answering acks at once
+
+def gen_pp(rng):
+    """`server_receive_maximum` 1-3, the broker's socket writes return 5-30 ms after the client has seen the bytes; a v5 client keeps
+    exactly one QoS>0 publish in flight and sends the next the moment the acknowledgement arrives: it never exceeds any Receive
+    Maximum >= 1 and must never be refused for it, however the broker's reader and writer goroutines interleave (seed C13-4)"""
+    rm = rng.choice([1, 1, 2, 3])
+    ops = [f"new mode=onlyonce rm={rm} ta=10 mp=268435456 mi=100 wdelay={rng.choice([5, 15, 30])}", "conn p cp v=5 cs=1"]
+    pid = 1000
+    for _ in range(rng.randint(1, 3)):
+        k = rng.choice([3, 5, 8])
+        ops.append(f"pp p k={k} q={rng.choice([1, 1, 2])} pid0={pid}")
+        pid += k
+        ops.append("ping p")
+    return ops
+
+def pred_pp(ops, out):
+    if len(out) != len(ops) or (out and out[0].startswith("CRASH")):
+        return "implementation crashed or hung: " + (out[0] if out else "")
+    for op, o in zip(ops, out):
+        if "HANG" in o:
+            return f"broker did not become quiescent after `{op}`"
+        if op.startswith("pp "):
+            k = int(next(x[2:] for x in op.split() if x.startswith("k=")))
+            if o != f"pp acks={k} disc=- closed=0":
+                return (f"`{op}`: a client with ONE publish in flight at a time got `{o}` — it stayed within the advertised Receive "
+                        f"Maximum and must not be disconnected or left without its acknowledgements")
+        if op.startswith("ping ") and "pingresp" not in o:
+            return f"`{op}`: the connection is gone ({o})"
+    return None
+
+def stream_pp(tier):
+    n = 40 if tier == "quick" else 600
+    return (core.Stream("receive-quota-pingpong", "broker", gen_pp, pred_pp, lambda ops, out: True, canon=wire.canon, keep_prefix=2), n)
